@@ -1,11 +1,15 @@
 // ---------------------------------------------------------------------------------------------------
 // Semantic functions of the composite instructions (needs opspecs.rs).  `binop_res/binop_st` is the
 // contract of BinOperation::exec written as ONE function of (instruction, state); the unit binop.exec
-// proves the real body against it.  The two "dispatch axioms" below say that executing
+// proves the real body against it.  The "dispatch axioms" below say that executing
 // `Instruction::Variable(v)` yields v and that executing `Instruction::BinOperation(b)` is
-// BinOperation::exec — i.e. what the match_any! arms of `impl Exec for Instruction` do (trusted, like
-// that dispatch itself).  With them the folding functions get the property-level postcondition
-// "the instruction returned evaluates, in every state, exactly like the unfolded operation".
+// BinOperation::exec — i.e. what the match_any! arms of `impl Exec for Instruction` do.  They are no
+// longer trusted by inspection: the unit instruction.exec proves the real dispatcher body
+// (instruction.exec.constant_yields_itself, instruction.exec.dispatch_binoperation / _ifelse /
+// _unaryoperation) and binop.exec / ifelse.exec / unop.exec prove the per-kind bodies equal to the semantic
+// functions; the axioms restate the composition of those two proved facts over eval_res / eval_st (which are,
+// by definition, what Instruction::exec returns).  With them the folding functions get the property-level
+// postcondition "the instruction returned evaluates, in every state, exactly like the unfolded operation".
 // ---------------------------------------------------------------------------------------------------
 pub open spec fn lift(x: Result<Variable, ExecError>) -> ExecResult {
     match x { Ok(v) => Ok(v), Err(e) => Err(ExecStop::Error(e)) }
@@ -121,6 +125,7 @@ pub broadcast proof fn axiom_eval_variable_st(v: Variable, s: int)
 {}
 #[verifier::external_body]
 pub broadcast proof fn axiom_eval_binop_res(b: Arc<BinOperation>, s: int)
+    requires is_plain_binop(b.op) || b.op is And || b.op is Or,   // compound assignments: binop.exec.compound_*, not binop_res
     ensures refines(#[trigger] eval_res(Instruction::BinOperation(b), s), binop_res(*b, s)),
 {}
 #[verifier::external_body]
